@@ -1,7 +1,7 @@
 (* driver for the Percolator acceptor: reads event lines (docs/PERC_EVENTS.md) on stdin, several
    traces separated by "trace <id>"; prints per trace
      ACCEPT <id> <n events>     or    REJECT <id> <index> <event line> <reason>
-   followed by  STATE <id> <S> told=.. primary=<kst> keys=<k:kst,...>  for every transaction
+   followed by  STATE <id> <S> told=.. primary=<kst> keys=<k:kst,...> mode=classic|async|onepc|asyncresolved  for every transaction
    (state after the last accepted event). Fields are tab separated; the echoed event line has
    its tabs replaced by single spaces. *)
 let nh = n_of_hex
@@ -117,7 +117,10 @@ let dump_state (id : string) (s : sys) : unit =
     let told = match int_of_n (c.cn FTold) with 1 -> "ok" | 2 -> "undetermined" | 3 -> "err" | _ -> "none" in
     let prim = if fb c FHasm then kst_str s t (c.cn FPrim) else "unknown" in
     let ks = if keys = [] then "-" else String.concat "," (List.map (fun k -> hex_of_n k ^ ":" ^ kst_str s t k) keys) in
-    Printf.printf "STATE\t%s\t%s\ttold=%s\tprimary=%s\tkeys=%s\n" id (hex_of_n t) told prim ks) txns
+    let nz f = c.cn f <> N0 in
+    let asyncres = List.exists (fun ((t', _), j) -> t' = t && j = JAsync) s.s_rs in
+    let mode = if nz FTried1 then "onepc" else if nz FTriedA then "async" else if asyncres then "asyncresolved" else "classic" in
+    Printf.printf "STATE\t%s\t%s\ttold=%s\tprimary=%s\tkeys=%s\tmode=%s\n" id (hex_of_n t) told prim ks mode) txns
 
 let () =
   let id = ref "0" and st = ref init and n = ref 0 and dead = ref false and started = ref false in
